@@ -30,6 +30,17 @@ def ship_gas(frame=False):
     return df.copy() if frame else {c: df[c].to_numpy(dtype=float).copy() for c in df.columns}
 
 
+RENAME_OIL = {"P": "pressure", "Z-Factor": "z-factor", "Co": "compressibility",
+              "Oil_Viscosity": "viscosity", "Oil_Density": "density", "T": "temperature"}
+
+
+def ship_oil(frame=False):
+    """Shipped oil table (7x compressibility jump at the bubble point), renamed as in the tests."""
+    df = _csv("pvt_oil.csv").rename(columns=RENAME_OIL)
+    df = df[df["pressure"] >= 10].reset_index(drop=True)
+    return df.copy() if frame else {c: df[c].to_numpy(dtype=float).copy() for c in df.columns}
+
+
 def hay(frame=False, pmax=10_000.0):
     df = _csv("pvt_gas_HAYNESVILLE SHALE_20.csv").rename(columns={"Density": "density", "T": "temperature"})
     df = df[[c for c in df.columns if not c.startswith("Unnamed")]]
@@ -89,6 +100,8 @@ _A = {
     "A_fall": lambda s: 10.0 - 9.5 * s,
     "A_kink": lambda s: np.where(s < 0.6, 0.05 + 0.1 * s, 0.11 + 12.0 * (s - 0.6)),
     "A_kink1e3": lambda s: np.where(s < 0.5, 0.01 + 0.01 * s, 0.015 + 19.97 * (s - 0.5)),
+    # bubble-point style discontinuity: 30x between two adjacent rows, gentle slopes elsewhere
+    "A_jump": lambda s: np.where(s < 0.5, 0.2 + 0.1 * s, 6.0 + 2.0 * (s - 0.5)),
 }
 
 
@@ -110,12 +123,13 @@ def alpha_exact(name):
 
 
 TABLES = {
-    "T_ship_gas": ship_gas, "T_hay": hay,
+    "T_ship_gas": ship_gas, "T_hay": hay, "T_ship_oil": ship_oil,
     "S_ideal": lambda **k: synth("S_ideal", **k), "S_zlin": lambda **k: synth("S_zlin", **k),
     "S_zdip": lambda **k: synth("S_zdip", **k),
     "A_const": lambda **k: alpha_family("A_const", **k), "A_rise": lambda **k: alpha_family("A_rise", **k),
     "A_fall": lambda **k: alpha_family("A_fall", **k), "A_kink": lambda **k: alpha_family("A_kink", **k),
     "A_kink1e3": lambda **k: alpha_family("A_kink1e3", **k),
+    "A_jump": lambda **k: alpha_family("A_jump", **k),
 }
 
 
